@@ -17,7 +17,10 @@ Inductive mop :=
 | ORemoveName (name : bytes)
 | ORename (old new : bytes)
 | OSetWhat (w : N)
-| OClear.
+| OClear
+| OMoveToFront (name : bytes)          (* Message::MoveNameToFront *)
+| OMoveToBack (name : bytes)           (* Message::MoveNameToBack *)
+| OCopyName (old new : bytes).         (* Message::CopyName(old, *this, new) *)
 
 (* MessageField::AddDataItem / PrependDataItem on the three states *)
 Definition push (prepend : bool) (r : option repr) (v : item) : repr :=
@@ -100,6 +103,29 @@ Definition api_rename (old new : bytes) (m : msg) : msg * bool :=
            end
   end.
 
+(* Hashtable::MoveToFront / MoveToBack: B_DATA_NOT_FOUND when the key is absent *)
+Definition api_move (front : bool) (name : bytes) (m : msg) : msg * bool :=
+  match m with
+  | Msg w fs =>
+      match flookup name fs with
+      | None => (m, false)
+      | Some (tc, r) =>
+          (Msg w (if front then FCons name tc r (fremove name fs) else fsnoc (fremove name fs) name tc r), true)
+      end
+  end.
+
+(* Message::CopyName with this Message as destination: nothing to do when the names are equal (even if
+   the field does not exist); otherwise Put(new, copy of the field), which overwrites in place or appends *)
+Definition api_copy_name (old new : bytes) (m : msg) : msg * bool :=
+  match m with
+  | Msg w fs =>
+      if bytes_eqb old new then (m, true)
+      else match flookup old fs with
+           | None => (m, false)
+           | Some (tc, r) => (Msg w (fput new tc r fs), true)
+           end
+  end.
+
 Definition step (m : msg) (o : mop) : msg * bool :=
   match o with
   | OAdd p n tc v => api_add p n tc v m
@@ -109,6 +135,9 @@ Definition step (m : msg) (o : mop) : msg * bool :=
   | ORename a b => api_rename a b m
   | OSetWhat w => (Msg (u32 w) (msg_fields m), true)
   | OClear => (Msg (msg_what m) FNil, true)
+  | OMoveToFront n => api_move true n m
+  | OMoveToBack n => api_move false n m
+  | OCopyName a b => api_copy_name a b m
   end.
 
 Definition run (ops : list mop) (m : msg) : msg := fold_left (fun s o => fst (step s o)) ops m.
@@ -122,5 +151,6 @@ Definition op_ok (o : mop) : Prop :=
   | OAdd _ n tc v => nul_free n /\ tc < two32 /\ wf_item (ftype_of_tc tc) v
   | OReplace _ n tc _ v => nul_free n /\ tc < two32 /\ wf_item (ftype_of_tc tc) v
   | ORename _ new => nul_free new
+  | OCopyName _ new => nul_free new
   | _ => True
   end.
